@@ -362,6 +362,21 @@ static void nx_at_state(void)
 			}
 		}
 	}
+	/* (1') right-to-left content, single window: the rows are only compared with the repaint twin below, but
+	 * the cursor has an independent oracle where it is cheap: it is on the cursor line's row, and when the
+	 * character commands act on is a printable ASCII character, the cell under the cursor shows that character */
+	if (!state_bad && windows == 1 && !structural && lbuf_len(xb)) {
+		char *ln = lbuf_get(xb, xrow);
+		unsigned c = ln ? (unsigned) uc_code(uc_chr(ln, xoff)) : 0;
+		if (E.r != xrow - xtop) {
+			nx_viol("c19-cursor", "the terminal cursor is on row %d, the cursor line %d is displayed on row %d", E.r + 1, xrow + 1, xrow - xtop + 1);
+			state_bad = 1;
+		} else if (c > 0x20 && c < 0x7f && E.c >= 0 && E.c < EC && E.cell[E.r][E.c] != c) {
+			nx_viol("c19-cursor", "the cell under the terminal cursor (row %d column %d) shows U+%04X; the character commands act on (line %d, character %d) is '%c'",
+				E.r + 1, E.c + 1, E.cell[E.r][E.c], xrow + 1, xoff + 1, (int) c);
+			state_bad = 1;
+		}
+	}
 	if (state_bad)
 		return;
 	/* (2) differential: a forced full repaint must give the same rows - nothing stale, nothing missing */
